@@ -1,6 +1,7 @@
 package kv
 
 import (
+	"bytes"
 	"encoding/binary"
 	"fmt"
 	"math/rand"
@@ -86,14 +87,71 @@ func openImage(base string, earlier map[string][]byte, lastName string, img imag
 	return true, nil, st, err
 }
 
+const sigNoopEntry = "aof-damaged-entry-replayed-as-noop"
+
+// noopEntryPayload builds, for a wal entry whose payload is n bytes long, a
+// payload of the same length that is a well-formed LogEntry with version V1, no
+// data and no checksum: field 1 (version) = 1 followed by one unknown
+// length-delimited field that swallows the rest. crc64 of no data is 0, the
+// default of the absent checksum field, so the entry passes decodeEntry and is
+// replayed as a mutation of UNKNOWN_TYPE, which handleMutation ignores.
+func noopEntryPayload(n int) ([]byte, bool) {
+	if n < 4 || n-4 > 127 {
+		return nil, false
+	}
+	p := append([]byte{0x08, 0x01, 0x7a, byte(n - 4)}, bytes.Repeat([]byte{0xee}, n-4)...)
+	return p, true
+}
+
+// c22Witness: Put(a,v1) Put(a,v2) Put(b,v3), second entry torn into a no-op
+// entry; the log must not open with a=v1, b=v3.
+func c22Witness(base string) bool {
+	dir := scratchDir(base, "c22w")
+	defer os.RemoveAll(dir)
+	run, err := startAOF(dir, chord.Hash)
+	if err != nil {
+		return false
+	}
+	for _, kvp := range [][2]string{{"a", "v1"}, {"a", "v2"}, {"b", "v3"}} {
+		if err := run.kv.Put(bg, []byte(kvp[0]), []byte(kvp[1])); err != nil {
+			run.kv.Stop()
+			return false
+		}
+	}
+	run.kv.Stop()
+	segs, err := segmentFiles(dir)
+	if err != nil || len(segs) != 1 {
+		return false
+	}
+	seg, err := os.ReadFile(filepath.Join(dir, aof.LogDir, segs[0]))
+	if err != nil {
+		return false
+	}
+	b, err := entryBounds(seg)
+	if err != nil || len(b) != 4 {
+		return false
+	}
+	_, hdr := binary.Uvarint(seg[b[1]:])
+	payload, ok := noopEntryPayload(b[2] - b[1] - hdr)
+	if !ok {
+		return false
+	}
+	copy(seg[b[1]+hdr:b[2]], payload)
+	opened, _, state, rerr := openImage(base, nil, segs[0], image{Kind: "garbage", data: seg})
+	return opened && rerr == nil && string(state["a"].Simple) == "v1" && string(state["b"].Simple) == "v3"
+}
+
 func TestC22(t *testing.T) {
 	const id = "C22"
 	rec := ev.New(t, id)
-	rec.Rule("rapid-generated aof histories (5..25 mutations as in C21, small payloads so that the last segment stays below 64 KiB; in the thorough tier also 64 KiB payloads and multi-segment logs) are run to a clean stop; then EVERY truncation offset of the last segment file (for segments above 64 KiB: every offset inside the last three entries plus 400 sampled ones) and, for each of the last three entries, zero fill and random fill of entry suffixes (every suffix for entries up to 160 bytes, else 48 sampled) is materialised as a separate data directory and opened with aof.New. Oracle: aof.New fails, or Get/PrefixList of all alphabet keys equal the kvmodel state after some prefix of the acknowledged (accepted) mutations. One evaluation = one image. Non-trivial: the damage starts strictly inside an entry. Distinct = distinct (history, image).")
+	rec.Rule("rapid-generated aof histories (5..25 mutations as in C21, small payloads so that the last segment stays below 64 KiB; in the thorough tier also 64 KiB payloads and multi-segment logs) are run to a clean stop; then EVERY truncation offset of the last segment file (for segments above 64 KiB: every offset inside the last three entries plus 400 sampled ones) and, for each of the last three entries, zero fill and random fill of entry suffixes (every suffix for entries up to 160 bytes, else 48 sampled) and the rewrite of the entry as a data-less, checksum-less LogEntry of the same length is materialised as a separate data directory and opened with aof.New. Oracle: aof.New fails, or Get/PrefixList of all alphabet keys equal the kvmodel state after some prefix of the acknowledged (accepted) mutations. One evaluation = one image. Non-trivial: the damage starts strictly inside an entry. Distinct = distinct (history, image).")
 	rec.Assume("a lost tail is a truncation of the last segment file, a torn write is an entry whose suffix holds zeros or arbitrary bytes; earlier segments were fsynced when the log cycled (wal.cycle) and are intact",
 		"a CRC-64 collision of a damaged entry is not expected within the explored images")
 	rec.Note("fault_space", "per history: all truncation offsets of the last segment (complete for segments <= 64 KiB) and suffix fills of the last three entries")
 	base := fastBase(t)
+	if ev.Known(id, sigNoopEntry) {
+		rec.Witnessed(sigNoopEntry, c22Witness(base))
+	}
 
 	ev.RapidCheck(t, 16, 320, func(t *rapid.T) {
 		big := ev.Thorough() && rapid.IntRange(0, 5).Draw(t, "big") == 0
@@ -203,6 +261,17 @@ func TestC22(t *testing.T) {
 			}
 		}
 
+		// the torn write that the checksum cannot see: an entry rewritten as a
+		// well-formed LogEntry without data and checksum (see noopEntryPayload)
+		for e := firstOfLast3; e < nEntries; e++ {
+			_, hdr := binary.Uvarint(last[bounds[e]:])
+			if payload, ok := noopEntryPayload(bounds[e+1] - bounds[e] - hdr); ok {
+				d := append([]byte(nil), last...)
+				copy(d[bounds[e]+hdr:bounds[e+1]], payload)
+				images = append(images, image{Kind: "empty-entry", Offset: bounds[e] + hdr, Entry: e, inside: true, data: d})
+			}
+		}
+
 		opens, refusals := 0, 0
 		for _, img := range images {
 			label := "image:" + img.Kind
@@ -231,6 +300,26 @@ func TestC22(t *testing.T) {
 				rec.Fail(t, "aof-torn-log-opened-but-unreadable", doc(readErr.Error()), "image %s@%d opened but reading failed: %v", img.Kind, img.Offset, readErr)
 			}
 			d := digestOf(state, keyAlphabet)
+			if _, ok := legal[d]; !ok && img.Kind != "cut" {
+				// is it exactly "the damaged entry was skipped, everything else applied"?
+				skip := len(run.accepted) - nEntries + img.Entry // index of the damaged entry's mutation
+				if skip >= 0 && skip < len(run.accepted) {
+					m := kvmodel.New(kvmodel.HashFn(chord.Hash))
+					for i, o := range run.accepted {
+						if i != skip {
+							modelApply(m, o)
+						}
+					}
+					if m.Digest(keyAlphabet, false) == d {
+						if ev.Known(id, sigNoopEntry) {
+							rec.Excluded(sigNoopEntry)
+							continue
+						}
+						rec.Fail(t, sigNoopEntry, doc("state "+d),
+							"image %s@%d: the damaged entry %d (mutation %s) was accepted and replayed as a no-op while the later entries were applied; state %s is not the state of any prefix", img.Kind, img.Offset, img.Entry, run.accepted[skip], d)
+					}
+				}
+			}
 			if _, ok := legal[d]; !ok {
 				rec.Fail(t, "aof-torn-log-yields-impossible-state", doc("state "+d),
 					"image %s@%d (entry %d, %d-byte segment) opened with a state that no prefix of the %d accepted mutations produces: %s", img.Kind, img.Offset, img.Entry, len(last), len(run.accepted), d)
